@@ -941,27 +941,17 @@ fn run(seed: u64, n: usize, compiles: usize, oracle_only: bool, out: &mut Out) {
         }
     }
 
-    // ---- compile budget
+    // ---- compile budget: quick = F15 witness + one plain + one keyword + one case schema outside
+    // every known class; otherwise the whole corpus (only produced stubs cost a compile) and the
+    // rest of the budget on random schemas, by quota (set when the corpus is done)
     let corpus = corpus();
     let mut quota = Quota::default();
-    let mut corpus_compile: Vec<bool> = vec![false; corpus.len()];
+    let mut corpus_compile: Vec<bool> = vec![compiles > 4; corpus.len()];
     if compiles <= 4 {
         corpus_compile[0] = compiles >= 1; // the F15 witness
         quota.plain = (compiles >= 2) as usize;
         quota.kw_clean = (compiles >= 3) as usize;
         quota.case_clean = (compiles >= 4) as usize;
-    } else {
-        let c = corpus.len().min(compiles / 2);
-        for x in corpus_compile.iter_mut().take(c) {
-            *x = true;
-        }
-        // when the budget is large enough the whole corpus is compiled
-        let r = compiles - c;
-        quota.plain = r / 8 + 1;
-        quota.kw_clean = r / 4;
-        quota.case_clean = r / 4;
-        quota.mixed_clean = r / 6;
-        quota.classed = r.saturating_sub(quota.plain + quota.kw_clean + quota.case_clean + quota.mixed_clean);
     }
 
     // ---- derive probe (one compile)
@@ -988,6 +978,14 @@ fn run(seed: u64, n: usize, compiles: usize, oracle_only: bool, out: &mut Out) {
             let mode = modes[(i - corpus.len()) % modes.len()];
             (format!("random {mode:?}"), gen_schema(&mut rng, mode), mode, false)
         };
+        if i == corpus.len() && compiles > 4 {
+            let r = compiles.saturating_sub(compiled);
+            quota.plain = r / 8 + 1;
+            quota.kw_clean = r / 4;
+            quota.case_clean = r / 4;
+            quota.mixed_clean = r / 6;
+            quota.classed = r.saturating_sub(quota.plain + quota.kw_clean + quota.case_clean + quota.mixed_clean);
+        }
         let text = schema_text(&s);
         if trustfall_core::schema::Schema::parse(&text).is_err() {
             out.count("skipped:invalid-schema");
@@ -1102,6 +1100,10 @@ fn run(seed: u64, n: usize, compiles: usize, oracle_only: bool, out: &mut Out) {
                 }
             } else {
                 out.count("compile:no-stub");
+                if i >= corpus.len() {
+                    // only schemas in a known class can get here: give the budget back
+                    quota.classed += 1;
+                }
             }
             let _ = std::fs::remove_dir_all(&crate_dir);
         }
